@@ -15,11 +15,11 @@ META = {
     "level": "exploration",
     "engine": "vmtable",
     "technique": "TLA+ spec VmBytecode (abstract policy VM, total step relation) model-checked with TLC; every TLC-enumerated program x stack x context x I/O class and every corrupted-module cell replayed into the real Machine/RunState (TABLE binding), outcome compared with the spec's prediction, panic = violation",
-    "text": "TLC enumerates every instruction cell (all Instruction variants x operand classes: targets in range/one past the end/usize::MAX/unresolved, counts 1/2/usize::MAX, limits <= 0, defined/undefined names) from every initial stack of depth 0..2 over representatives of each Value kind, all 2-instruction prefix trees from stacks of depth 0..1 (thorough: also all 3-instruction trees from the empty stack and all 4-instruction trees over one cell per instruction variant), longer programs by seeded simulation, with command context and I/O result class (ok/empty/error/failing iterator) chosen at the first instruction that consults them.  The spec shows at model level that each (state, instruction) has a defined outcome among continue / policy exit / MachineErrorType.  Each behaviour is executed on the real VM step-wise and through run(); the predicted status, value stack, pc, context, locals, I/O log and step count are compared (drift).  Mutated ModuleV0 values (code-map spans at/after the end of the text or inside a character, labels out of range or missing, duplicate/dangling/empty definitions) are loaded with Machine::from_module and entered through run/call_action/call_command_policy/call_seal/call_open.  Decides: no panic.",
+    "text": "TLC enumerates every instruction cell (all Instruction variants x operand classes: targets backward/next/skipping/one past the end/usize::MAX/unresolved, counts 1/2/usize::MAX, limits <= 0, defined/undefined names) from every initial stack of depth 0..2 over representatives of each Value kind, all 3- and 4-instruction trees over the control alphabet (SaveSP/RestoreSP/Call/Return/Block/End/Def/Get/QueryNext and backward, forward and skipping jumps: the shared call-state stack and the scope stack, including a Return that pops the root function scope) from stacks of depth 0..2, all 2-instruction prefix trees from stacks of depth 0..1 (thorough: also all 3-instruction trees from the empty stack and all 4-instruction trees over one cell per instruction variant), longer programs by seeded simulation, with command context and I/O result class (ok/empty/error/failing iterator) chosen at the first instruction that consults them.  The spec shows at model level that each (state, instruction) has a defined outcome among continue / policy exit / MachineErrorType.  Each behaviour is executed on the real VM step-wise and through run(); the predicted status, value stack, pc, context, locals, I/O log and step count are compared (drift).  Mutated ModuleV0 values (code-map spans at/after the end of the text or inside a character, labels out of range or missing, duplicate/dangling/empty definitions) are loaded with Machine::from_module and entered through run/call_action/call_command_policy/call_seal/call_open.  Decides: no panic.",
     "note": "Exploration, not proof: programs <= 2 (thorough 3, and 4 over a core alphabet) instructions exhaustively, to 5 by simulation; world of 2 structs/1 fact/1 enum/1 global; stub MachineIO.  Non-terminating programs are cut at the spec's step budget and then stepped 1500 more times for panics only.  Trusted: the stub I/O layer and the engine's value abstraction.",
 }
 
-BUDGET = {"MC_VmBytecode_L1.cfg": 4, "MC_VmBytecode_L2.cfg": 6, "MC_VmBytecode_L4core.cfg": 10, "MC_VmBytecode_L2q.cfg": 6,
+BUDGET = {"MC_VmBytecode_L1.cfg": 4, "MC_VmBytecode_Ctrl.cfg": 12, "MC_VmBytecode_L2.cfg": 6, "MC_VmBytecode_L4core.cfg": 10, "MC_VmBytecode_L2q.cfg": 6,
           "MC_VmBytecode_L3.cfg": 8, "MC_VmBytecode_Sim.cfg": 12}
 
 # Regressions found by this check on the tree as delivered (fixed since, see
@@ -100,7 +100,7 @@ def run(ctx):
         ctx.cov.update({"evaluations": 1, "distinct_nontrivial": 1, "rule": "replay of one stored case"})
         return
 
-    cfgs = ["MC_VmBytecode_L1.cfg", "MC_VmBytecode_L2.cfg"]
+    cfgs = ["MC_VmBytecode_L1.cfg", "MC_VmBytecode_Ctrl.cfg", "MC_VmBytecode_L2.cfg"]
     if ctx.thorough:
         cfgs += ["MC_VmBytecode_L3.cfg", "MC_VmBytecode_L4core.cfg"]
     cfgs.append("MC_VmBytecode_Sim.cfg")
